@@ -306,4 +306,108 @@ def incorporateTranscript (par : Par) (ref : Seq) (vs : Variants) (exons : Locat
         else pure (sh, some c)
       | _, _, _, _ => throw .Location
 
+/-! ### io/vcf/parser.py: convert_vcf_records_to_model -/
+
+/-- `sample.data.PS`: attribute absent / present with value None / an int -/
+inductive PS where
+  | absent
+  | missing
+  | val (n : Int)
+  deriving DecidableEq, Repr
+
+/-- what the function reads from a record: CHROM, affected_start, affected_end, the first sample's PS,
+    ALT (sequence, type) -/
+structure VcfRec where
+  chrom : List Char
+  start : Nat
+  «end» : Nat
+  ps : PS
+  alts : List (Seq × List Char)
+  deriving DecidableEq, Repr
+
+/-- the dict built per alternative allele (`phase` = the "phase_block" entry, `none` when the key is absent) -/
+structure VarDict where
+  start : Nat
+  «end» : Nat
+  seq : Seq
+  vtype : List Char
+  phase : PS
+  deriving DecidableEq, Repr
+
+structure Coll where
+  id : Option (List Char)        -- variant_collection_id
+  seqName : List Char
+  vars : List VarDict
+  deriving DecidableEq, Repr
+
+/-- the inner loops: one dict per ALT; `start == end` ⇒ `end += 1` -/
+def vcfDicts (r : VcfRec) : List VarDict :=
+  r.alts.map fun a => ⟨r.start, if r.start = r.«end» then r.«end» + 1 else r.«end», a.1, a.2, r.ps⟩
+
+/-- `itertools.groupby(recs, key=CHROM)`: runs of consecutive records with the same CHROM -/
+def groupRuns : List VcfRec → List (List Char × List VcfRec)
+  | [] => []
+  | r :: rs =>
+    match groupRuns rs with
+    | (c, g) :: rest => if c = r.chrom then (c, r :: g) :: rest else (r.chrom, [r]) :: (c, g) :: rest
+    | [] => [(r.chrom, [r])]
+
+/-- sort key `x.get("phase_block", -1)`; `none` = the key is Python's None (not comparable) -/
+def sortKey (d : VarDict) : Option Int :=
+  match d.phase with
+  | .absent => some (-1)
+  | .val n => some n
+  | .missing => none
+
+def insertByKey (d : VarDict) (k : Int) : List (Int × VarDict) → List (Int × VarDict)
+  | [] => [(k, d)]
+  | x :: xs => if k < x.1 then (k, d) :: x :: xs else x :: insertByKey d k xs
+
+/-- stable sort by key (insertion from the left, after equal keys) -/
+def sortByKey (ds : List (Int × VarDict)) : List (Int × VarDict) :=
+  ds.foldl (fun acc x => insertByKey x.2 x.1 acc) []
+
+/-- group key `x.get("phase_block")` -/
+def groupKey (d : VarDict) : Option Int :=
+  match d.phase with
+  | .val n => some n
+  | _ => none
+
+/-- `itertools.groupby(sorted_variants, key=…)`: consecutive runs -/
+def groupByKey : List VarDict → List (Option Int × List VarDict)
+  | [] => []
+  | d :: ds =>
+    match groupByKey ds with
+    | (k, g) :: rest => if k = groupKey d then (k, d :: g) :: rest else (groupKey d, [d]) :: (k, g) :: rest
+    | [] => [(groupKey d, [d])]
+
+/-- `str(int)` -/
+def intStr (i : Int) : List Char := (toString i).toList
+
+/-- the collections of one chromosome; `none` = Python's sort would have to compare None (TypeError: outside
+    the model, which has no internal errors) -/
+def vcfColls (chrom : List Char) (recs : List VcfRec) : Option (List Coll) :=
+  let ds := recs.flatMap vcfDicts
+  let keyed := ds.map fun d => (sortKey d, d)
+  if ds.length ≥ 2 ∧ keyed.any (fun p => p.1.isNone) then none
+  else
+    let sorted : List VarDict :=
+      if ds.length ≥ 2 then (sortByKey (keyed.filterMap fun p => p.1.map fun k => (k, p.2))).map (·.2) else ds
+    some ((groupByKey sorted).flatMap fun g =>
+      match g.1 with
+      | some n => [⟨some (intStr n), chrom, g.2⟩]
+      | none => g.2.map fun d => ⟨none, chrom, [d]⟩)
+
+/-- `variants[seq_id] = grouped_variants` on an insertion-ordered dict -/
+def dictSet (k : List Char) (v : List Coll) : List (List Char × List Coll) → List (List Char × List Coll)
+  | [] => [(k, v)]
+  | x :: xs => if x.1 = k then (k, v) :: xs else x :: dictSet k v xs
+
+/-- `convert_vcf_records_to_model` -/
+def convertVcf (recs : List VcfRec) : Option (List (List Char × List Coll)) :=
+  (groupRuns recs).foldl (fun acc g =>
+    match acc, vcfColls g.1 g.2 with
+    | some d, some cs => some (dictSet g.1 cs d)
+    | _, _ => none) (some [])
+
 end BioCantor.Model.Variants
